@@ -946,7 +946,7 @@ def lemma_acl_fields(handle, pb, bc, data):
     assert bytes(back) == raw
 
 
-lemma('data/acl/fields', lemma_acl_fields, prop=PROP, params=dict(handle=H12, pb=F2, bc=F2, data=Bytes), requires=lambda data: len(data) <= 0xFFFF, inline=INLINE,
+lemma('data/acl/fields', lemma_acl_fields, prop=PROP, params=dict(handle=H12, pb=F2, bc=F2, data=Bytes), requires=lambda data: len(data) <= 0xFFFF, inline=INLINE, procs=1,
       note='data_total_length is the length of data (the only value from_bytes accepts)')
 
 
@@ -962,7 +962,7 @@ def lemma_acl_bytes(h, data):
     assert pkt.data_total_length == len(data)
 
 
-lemma('data/acl/bytes', lemma_acl_bytes, prop=PROP, params=dict(h=BytesN(2), data=Bytes), requires=lambda data: len(data) <= 0xFFFF, inline=INLINE)
+lemma('data/acl/bytes', lemma_acl_bytes, prop=PROP, params=dict(h=BytesN(2), data=Bytes), requires=lambda data: len(data) <= 0xFFFF, inline=INLINE, procs=1)
 
 
 def lemma_sco_fields(handle, status, data):
@@ -978,7 +978,7 @@ def lemma_sco_fields(handle, status, data):
     assert bytes(back) == raw
 
 
-lemma('data/sco/fields', lemma_sco_fields, prop=PROP, params=dict(handle=H12, status=F2, data=Bytes), requires=lambda data: len(data) <= 255, inline=INLINE)
+lemma('data/sco/fields', lemma_sco_fields, prop=PROP, params=dict(handle=H12, status=F2, data=Bytes), requires=lambda data: len(data) <= 255, inline=INLINE, procs=1)
 
 
 def lemma_sco_bytes(h, data):
@@ -992,7 +992,7 @@ def lemma_sco_bytes(h, data):
 
 
 lemma('data/sco/bytes', lemma_sco_bytes, prop=PROP, params=dict(h=BytesN(2), data=Bytes),
-      requires=lambda h, data: [len(data) <= 255, h[1] < 64], inline=INLINE, note='well-formed: the two RFU bits of the handle word are zero')
+      requires=lambda h, data: [len(data) <= 255, h[1] < 64], inline=INLINE, procs=1, note='well-formed: the two RFU bits of the handle word are zero')
 
 
 def lemma_iso_fields(handle, pb, dtl, ts, sdu, frag):
@@ -1030,7 +1030,7 @@ def lemma_iso_fields(handle, pb, dtl, ts, sdu, frag):
 
 lemma('data/iso/fields', lemma_iso_fields, prop=PROP,
       params=dict(handle=H12, pb=F2, dtl=U16, ts=Opt(U32), sdu=Opt(TupleOf(U16, H12, F2)), frag=Bytes),
-      requires=lambda pb, sdu: (sdu is None) == (pb == 1 or pb == 3), inline=INLINE,
+      requires=lambda pb, sdu: (sdu is None) == (pb == 1 or pb == 3), inline=INLINE, procs=1,
       note='SDU information present exactly for PB_Flag 0b00/0b10 (Core 5.4.5); ISO_SDU_Length is a 12-bit field, Packet_Status_Flag a 2-bit field')
 
 
@@ -1049,7 +1049,7 @@ lemma('data/iso/bytes', lemma_iso_bytes, prop=PROP,
           (ts is not None) == ((h[1] // 64) % 2 == 1),  # Time_Stamp present iff TS_Flag
           (sdu is not None) == ((h[1] // 16) % 2 == 0),  # SDU information present iff PB_Flag is 0b00 or 0b10
           sdu is None or (sdu[3] // 16) % 4 == 0,  # RFU bits 12-13 of the SDU-length word zero
-      ], inline=INLINE,
+      ], inline=INLINE, procs=1,
       note='well-formed per Core Vol 4 Part E 5.4.5: RFU bits zero, optional words present exactly as the flags say')
 
 
